@@ -42,7 +42,8 @@ CONSTANTS
 \*               raises, RETRY recorded, the branch parks on the retry timer), "sretry" (the attempt found READY after the
 \*               resubmission: no START, function, SUCCEED), "sfinal" (START, function raises, FAIL recorded); "sretryfail" /
 \*               "sretryfinal": a READY attempt whose function raises again (RETRY and park / FAIL); "rok" / "rfail": the whole script
-\*               of a branch whose context is already SUCCEEDED / FAILED when the invocation begins (replayed, nothing sent)
+\*               of a branch whose context is already SUCCEEDED / FAILED when the invocation begins (replayed, nothing sent);
+\*               "cin" / "cout": a child context opened / completed inside the body (one update each)
 \*   maxc : max_concurrency (0 = None); mins : min_successful (0 = None); tolc : tolerated_failure_count (99 = None);
 \*   tolp : tolerated_failure_percentage (999 = None); tfail : BOOLEAN, the timer thread's refresh checkpoint may fail; lag : BOOLEAN, the backend fires timers late (BodyRepark)
 \*   pre  : sequence of the branches whose context already exists when the call starts (a re-invocation: the branch is re-entered without a
@@ -256,7 +257,7 @@ LateU(i) == IF parentSent THEN late \cup {<<i, "update">>} ELSE late
 \* Both are separate steps (faithful): `chk` holds the branches that passed the check and have not enqueued yet.
 \* An update enqueued after the parent's completion record although its check passed before is tagged "update-race".
 \* ("wstart": the synchronous START of the wait / callback with which a tsusp / susp atom begins)
-StepPhases == {"start", "succeed", "wstart", "retry", "failrec"}
+StepPhases == {"start", "succeed", "wstart", "retry", "failrec", "cmark"}
 IsCkptPhase(i) == sub[i] \in ({"ctxStart"} \cup StepPhases) \/ (sub[i] = "atom" /\ Atom(i) \in {"ok", "fail"})
 CkOp(i) == IF sub[i] \in StepPhases THEN StepOp(i) ELSE Ctx(i)
 CkPar(i) == IF sub[i] \in StepPhases THEN Ctx(i) ELSE <<"p">>
@@ -302,6 +303,12 @@ BodyPut(i) ==
        [] sub[i] = "retry" ->     \* RETRY recorded (synchronous): the branch parks on the retry timer
             BSet(i, reg, "park", bpos[i], fout[i], "run", active, LateTag(i, FALSE),
                  IF parentSent THEN known \cup {"check-then-put"} ELSE known)
+       \* "cin" / "cout": START / SUCCEED of a child context opened inside the branch body (run_in_child_context): one update each;
+       \* the operations between them hang off that context, which changes nothing here - with the ancestor walk everything below
+       \* the call's context is rejected once it completed, at any depth
+       [] sub[i] = "cmark" ->
+            BSet(i, reg, "atom", bpos[i] + 1, fout[i], "run", active, LateTag(i, Atom(i) = "cin"),
+                 IF parentSent THEN known \cup {IF FixOrphanParent THEN "check-then-put" ELSE "orphan-first-time-op"} ELSE known)
        [] sub[i] = "failrec" ->   \* FAIL recorded (synchronous): the step raises in the body
             BSet(i, reg, "atom", bpos[i] + 1, fout[i], "run", active, LateTag(i, FALSE),
                  IF parentSent THEN known \cup {"check-then-put"} ELSE known)
@@ -315,6 +322,7 @@ BodyOther(i) ==
   /\ (~IsCkptPhase(i) \/ CtxExists(i))
   /\ CASE CtxExists(i) -> BSet(i, reg, "atom", bpos[i], fout[i], "run", active, late, known)
        [] sub[i] = "atom" /\ Atom(i) \in {"step", "sfail", "sfinal"} -> BSet(i, reg, "start", bpos[i], fout[i], "run", active, late, known)
+       [] sub[i] = "atom" /\ Atom(i) \in {"cin", "cout"} -> BSet(i, reg, "cmark", bpos[i], fout[i], "run", active, late, known)
        \* the user function runs (and returns, or raises: a retry or the final failure is recorded next)
        [] sub[i] = "fn" -> BSet(i, reg, CASE Atom(i) \in {"sfail", "sretryfail"} -> "retry" [] Atom(i) \in {"sfinal", "sretryfinal"} -> "failrec"
                                         [] OTHER -> "succeed",
